@@ -9,10 +9,28 @@ def run(ctx, replay=None):
                 "volume, site type), all step-size constraints enabled, both iterators, two solve calls, executed with the phase list in two "
                 "orders; every history (un-permuted along the phase axis), the time grid and the final size distributions are compared item by "
                 "item and Equiv.tla accepts the pair only if every comparison is eq. Element order: thermodynamic queries and short diffusion runs "
-                "on the ternary databases with the solutes listed in both orders (see elements part).")
+                "on the ternary databases with the solutes listed in both orders (see elements part); ternary SinglePhaseModel runs on a scripted name-addressed "
+                "interdiffusivity with named boundary conditions (none, both solutes in either call order, one solute only), solutes listed as (B, C) and (C, B) (Relations.tla).")
     ctx.assumptions = ["phase-order comparisons use rtol 1e-9 (sums over phases are re-associated)"]
     pairs = [(a, b, perm, 1e-9, [], "phase-order/" + label) for (a, b, perm, label) in P.phase_order_pairs()]
     judge_pairs(ctx, pairs, "phaseorder")
+    # diffusion profiles with boundary conditions, solutes listed in both orders (scripted name-addressed interdiffusivity)
+    from .. import c11_bc, traces as T
+    from ..tlc import MachineryError
+    ev = c11_bc.relations(ctx.tier)
+    reached, r = T.validate("Relations", [], [ev], "c11_bc")
+    ctx.add_tlc(r, "Relations over the boundary-condition pairs")
+    if r.violated or reached is None:
+        raise MachineryError("Relations failed (C11 boundary conditions)")
+    n = sum(1 for e in ev if e["e"] == "rel")
+    ctx.replayed += n
+    ctx.case("diffusion-bc-solute-order", nontrivial=n >= 10, sample={"events": ev[1:3]})
+    if n < 10 and ev[-1]["e"] != "exception":
+        raise MachineryError("vacuity: boundary-condition pairs produced %d relations" % n)
+    if reached[0]["l"] != len(ev) + 1:
+        ctx.violation("c11bc:trace-not-consumed", "boundary-condition relations not consumed", {})
+    for f in reached[0]["fails"]:
+        ctx.violation("c11bc:%s" % f[0], "ternary SinglePhaseModel: %s violated at %s (observed %s, stated %s)" % (f[0], f[1], f[2], f[3]), {"fail": f})
     try:
         from .. import thermo_drv
     except ImportError:
